@@ -4,6 +4,7 @@ import (
 	"encoding/json"
 	"fmt"
 	"os"
+	"strconv"
 	"strings"
 	"testing"
 
@@ -286,6 +287,11 @@ func TestC09_Random(t *testing.T) {
 	rapid.Check(t, func(t *rapid.T) {
 		p := fullProfile(3)
 		p.Opaque = true
+		jsonDoc := rapid.IntRange(0, 4).Draw(t, "jsonDoc")
+		if jsonDoc < 2 {
+			// JSON-decoded documents: nulls at any depth, float64 or json.Number
+			p = uni.Profile{Depth: 4, JSON: true, UseNumber: jsonDoc == 1, NilLeaves: true}
+		}
 		root := uni.GenDatum(t, p)
 		g := gen.NewExprGen(t, root, "")
 		e := g.Expr(rapid.IntRange(1, 4).Draw(t, "depth"))
@@ -299,6 +305,11 @@ func TestC09_Random(t *testing.T) {
 			o.HasUnknown, o.Unknown = true, uni.GenNode(t, uni.GenType(t, p, 1), p, 1)
 		}
 		c := newEvalCase(text, e, root, o)
+		if p.JSON {
+			c.Datum = uni.NormalizeJSON(root)
+			c.ViaJSON, c.UseNumber = true, p.UseNumber
+			root = c.Datum
+		}
 		res := c09Check(t, "TestC09_Random", c)
 		if res.CreateErr != nil {
 			t.Fatalf("harness: rendered expression %q rejected: %v", text, res.CreateErr)
@@ -309,4 +320,81 @@ func TestC09_Random(t *testing.T) {
 		r.Case(text+"\x00"+root.String()+"\x00"+o.String(), nt, sampleOf(text, root, res.String()),
 			"outcome:"+res.Outcome().String(), fmt.Sprintf("resolved:%v", env.Resolved > 0))
 	})
+}
+
+// FuzzEvaluateJSON is the native coverage-guided target of C09 (thorough tier):
+// the input is split at the first NUL into an expression and a JSON document; the
+// document is decoded with encoding/json (float64 numbers, then json.Number) and
+// evaluated. Invariant: no panic, an error comes with false.
+func FuzzEvaluateJSON(f *testing.F) {
+	docs := []string{`{"a":1,"b":"x","c":[1,null,"s",{"d":true}],"e":{"f":null,"g":[]},"n":1.5e3}`, `[{"a":[1,2]},{"a":null},5]`, `null`, `"s"`, `{"":{"":0}}`}
+	exprs := []string{"a == 1", "b matches \"x\"", "1 in c", "c is empty", "e.f is not empty", "any c as i, v { v.d == true or i == 0 }", "all e as k { k != \"f\" }",
+		"\"/c/3/d\" != false", "n == 1500", "not (x in b) and e.g is empty", "any \"/0/a\" as v { v == 2 }"}
+	for _, d := range docs {
+		for _, e := range exprs {
+			f.Add([]byte(e + "\x00" + d))
+		}
+	}
+	out := os.Getenv("VERIF_FUZZ_OUT")
+	f.Fuzz(func(t *testing.T, in []byte) {
+		if len(in) > 2048 {
+			return
+		}
+		if out != "" {
+			os.Setenv("VERIF_REPLAY_DIR", out)
+		}
+		fuzzEvalJSON(t, in)
+	})
+}
+
+type fuzzJSONCase struct {
+	Input  []byte `json:"input"`
+	InputQ string `json:"input_quoted"`
+}
+
+func fuzzEvalJSON(t failer, in []byte) {
+	i := strings.IndexByte(string(in), 0)
+	if i < 0 {
+		return
+	}
+	expr, doc := string(in[:i]), in[i+1:]
+	ev, err := bexpr.CreateEvaluator(expr, bexpr.WithMaxExpressions(1<<16))
+	if err != nil {
+		return
+	}
+	c := &fuzzJSONCase{Input: in, InputQ: strconv.QuoteToASCII(string(in))}
+	for _, useNumber := range []bool{false, true} {
+		dec := json.NewDecoder(strings.NewReader(string(doc)))
+		if useNumber {
+			dec.UseNumber()
+		}
+		var d interface{}
+		if dec.Decode(&d) != nil {
+			return
+		}
+		res, eerr, pan := safeEvaluate(ev, d)
+		if pan != nil {
+			violation(t, "C09", "FuzzEvaluateJSON", c, "Evaluate panicked: %v\n expr: %q\n json: %s", pan, expr, doc)
+		}
+		if eerr != nil && res {
+			violation(t, "C09", "FuzzEvaluateJSON", c, "Evaluate returned (true, %v)\n expr: %q\n json: %s", eerr, expr, doc)
+		}
+		// filters over the decoded document share the totality requirement
+		if fl, ferr := bexpr.CreateFilter(expr); ferr == nil {
+			if _, _, pan := safeExecute(fl, d); pan != nil {
+				violation(t, "C09", "FuzzEvaluateJSON", c, "Filter.Execute panicked: %v\n expr: %q\n json: %s", pan, expr, doc)
+			}
+		}
+	}
+}
+
+func init() {
+	replayers["FuzzEvaluateJSON"] = func(t *testing.T, raw json.RawMessage) {
+		var c fuzzJSONCase
+		if err := json.Unmarshal(raw, &c); err != nil {
+			t.Fatalf("bad case: %v", err)
+		}
+		fuzzEvalJSON(t, c.Input)
+		t.Logf("replay ok")
+	}
 }
